@@ -90,6 +90,18 @@ class Statistics:
             weight=self.weight * other_scalar,
         )
 
+    def __truediv__(self, other: Any) -> Statistics:
+        """The sums divided by a scalar (its reciprocal need not be a float)."""
+        if not np.isscalar(other):
+            return INVALID_STATISTICS
+        other_scalar = float(cast(float, other))
+        return dataclasses.replace(
+            self,
+            sum=self.sum / other_scalar,
+            sum2=self.sum2 / other_scalar,
+            weight=self.weight / other_scalar,
+        )
+
 
 INVALID_STATISTICS: Statistics = Statistics(
     sum=np.nan, sum2=np.nan, min=np.nan, max=np.nan, weight=np.nan
